@@ -208,3 +208,15 @@ theorem roundCore_tie_even (num den : Nat) (hd : 0 < den)
   · exact he
 
 end OpmVerif.Strtod
+
+namespace OpmVerif.Strtod
+
+/-- **`(float) d`**: the 53-bit significand `q` of a normal binary64 is replaced by the nearest
+multiple of `2^shift` (ties to even): `|q − q'·2^shift| ≤ ½·2^shift`, where `shift` is 29 in the
+normal range of binary32 and larger in its subnormal range. -/
+theorem float32_significand_nearest (q e : Nat) :
+    2 * (q - roundHalfEven q (2 ^ f32Shift e) * 2 ^ f32Shift e) ≤ 2 ^ f32Shift e ∧
+      2 * (roundHalfEven q (2 ^ f32Shift e) * 2 ^ f32Shift e - q) ≤ 2 ^ f32Shift e :=
+  roundHalfEven_near q (2 ^ f32Shift e) (Nat.two_pow_pos _)
+
+end OpmVerif.Strtod
